@@ -51,6 +51,7 @@ func vNewSession(budget int, auth []byte) *vSession {
 	s.relay = newRelay(sid, budget)
 	if budget > 0 {
 		s.relay.skip = vIntRange("relay_skip", 0, vParam("maxskip", 0))
+		s.relay.texts = vParam("errtexts", 0) != 0
 	}
 	sctx, scancel := context.WithCancel(s.ctx)
 	s.srv = &Server{serverHost: "relay", client: s.relay, connData: s.srvData, sid: sid, quit: make(chan struct{}), ctx: sctx, cancel: scancel, log: log}
